@@ -29,6 +29,7 @@ import (
 	"strconv"
 	"strings"
 	"sync"
+	"sync/atomic"
 	"time"
 
 	kafka "github.com/segmentio/kafka-go"
@@ -97,9 +98,15 @@ type tcase struct {
 	rawPrefix int64
 	rawN      int
 	rawEnd    string // close | silent
+	// fkind == rawcut (op "rawcut"): the genuine raw response at step fstep cut after rawN
+	// bytes; cutPad > 0: PLAIN's empty success payload padded to cutPad bytes
+	cutPad int
 }
 
 func (c tcase) op() string {
+	if c.fkind == saslfake.FRawCut {
+		return "rawcut"
+	}
 	if c.fkind == saslfake.FRawResp {
 		return "rawread"
 	}
@@ -120,6 +127,9 @@ func stepS(v int) string {
 }
 
 func (c tcase) args() string {
+	if c.fkind == saslfake.FRawCut {
+		return fmt.Sprintf("%s %s %s %s %s %s", c.path, c.mech, stepS(c.fstep), kvfmt.I(int64(c.rawN)), c.rawEnd, kvfmt.I(int64(c.cutPad)))
+	}
 	if c.fkind == saslfake.FRawResp {
 		return fmt.Sprintf("%s %s %s %s %s %s %s", c.path, c.mech, c.cred, stepS(c.fstep), kvfmt.I(c.rawPrefix), kvfmt.I(int64(c.rawN)), c.rawEnd)
 	}
@@ -143,8 +153,12 @@ func parseV(s string) int {
 
 func parseCase(s string) tcase {
 	f := strings.Fields(s)
-	if len(f) > 0 && (f[0] == "run" || f[0] == "rawread") {
+	if len(f) > 0 && (f[0] == "run" || f[0] == "rawread" || f[0] == "rawcut") {
 		f = f[1:]
+	}
+	if len(f) == 6 {
+		return tcase{path: f[0], mech: f[1], hs: 0, au: saslfake.Absent, cred: "right", fstep: parseV(f[2]), fkind: saslfake.FRawCut,
+			rawN: parseV(f[3]), rawEnd: f[4], cutPad: parseV(f[5])}
 	}
 	if len(f) == 7 {
 		return tcase{path: f[0], mech: f[1], hs: 0, au: saslfake.Absent, cred: f[2], fstep: parseV(f[3]), fkind: saslfake.FRawResp,
@@ -309,6 +323,46 @@ type outcome struct {
 	notes []string
 	alloc uint64 // runtime.MemStats.TotalAlloc around the dial / round trip
 	recv  int    // bytes of the faulted raw response that were put on the wire
+	frame int    // rawcut: length of the genuine frame
+	cut   bool   // rawcut: the frame was really cut
+}
+
+// recMech counts the challenges handed to the mechanism
+type recMech struct {
+	sasl.Mechanism
+	n *int32
+}
+
+func (m recMech) Start(ctx context.Context) (sasl.StateMachine, []byte, error) {
+	s, ir, err := m.Mechanism.Start(ctx)
+	if err != nil {
+		return nil, nil, err
+	}
+	return recSess{s, m.n}, ir, nil
+}
+
+type recSess struct {
+	sasl.StateMachine
+	n *int32
+}
+
+func (s recSess) Next(ctx context.Context, challenge []byte) (bool, []byte, error) {
+	atomic.AddInt32(s.n, 1)
+	return s.StateMachine.Next(ctx, challenge)
+}
+
+func cutClass(k, frame int) string {
+	switch {
+	case k == 0:
+		return "cut=nothing"
+	case k < 4:
+		return "cut=in-prefix"
+	case k == 4:
+		return "cut=after-prefix"
+	case k == frame-1:
+		return "cut=last-byte"
+	}
+	return "cut=in-payload"
 }
 
 func runCase(c tcase, creds []credEntry, seed int64) outcome {
@@ -365,7 +419,12 @@ func runCase(c tcase, creds []credEntry, seed int64) outcome {
 
 	script := &saslfake.Script{HsMax: c.hs, AuthMax: c.au, Mechs: []string{"PLAIN", "SCRAM-SHA-256", "SCRAM-SHA-512"},
 		DB: db, SNonce: string(snonce), FaultStep: c.fstep, FaultKind: c.fkind,
-		RawPrefix: int32(c.rawPrefix), RawPayload: c.rawN, RawEnd: c.rawEnd}
+		RawPrefix: int32(c.rawPrefix), RawPayload: c.rawN, RawEnd: c.rawEnd, CutPad: c.cutPad}
+	if c.fkind == saslfake.FRawCut {
+		o.feats = append(o.feats, "end="+c.rawEnd, "pad="+strconv.Itoa(c.cutPad))
+	}
+	var nextCalls int32
+	mech = recMech{mech, &nextCalls}
 	if c.fkind == saslfake.FRawResp {
 		o.recv = 4 + c.rawN
 		o.feats = append(o.feats, "end="+c.rawEnd, "payload="+strconv.Itoa(c.rawN), "prefix="+prefixClass(c.rawPrefix, c.rawN))
@@ -487,8 +546,19 @@ func runCase(c tcase, creds []credEntry, seed int64) outcome {
 		tj = strings.Join(toks, ",")
 	}
 	o.res = fmt.Sprintf("J=%s E=%s C=%s", tj, e, cl)
-	if c.fkind == saslfake.FRawResp {
+	if c.fkind == saslfake.FRawResp || c.fkind == saslfake.FRawCut {
 		o.res += " K=" + errClass(rt.err, rt.useErr)
+	}
+	if c.fkind == saslfake.FRawCut {
+		// N: how many challenges the mechanism was handed (Next calls)
+		o.res += fmt.Sprintf(" N=%d", atomic.LoadInt32(&nextCalls))
+		o.frame, o.cut = js[0].Frame()
+		if o.cut {
+			o.recv = c.rawN
+			o.feats = append(o.feats, cutClass(c.rawN, o.frame))
+		} else {
+			o.feats = append(o.feats, "not-cut")
+		}
 	}
 	// notes (not compared): error class, extra connections
 	switch {
@@ -589,7 +659,7 @@ func child(creds []credEntry, seed int64) {
 		if len(o.feats) > 5 {
 			sort.Strings(o.feats[5:])
 		}
-		fmt.Fprintf(out, "RES %s | %s | %s | %s | alloc=%d recv=%d\n", sp[0], o.res, strings.Join(o.feats, ","), clean(strings.Join(o.notes, "; ")), o.alloc, o.recv)
+		fmt.Fprintf(out, "RES %s | %s | %s | %s | alloc=%d recv=%d frame=%d cut=%v\n", sp[0], o.res, strings.Join(o.feats, ","), clean(strings.Join(o.notes, "; ")), o.alloc, o.recv, o.frame, o.cut)
 		out.Flush()
 	}
 }
@@ -668,11 +738,38 @@ func runWorker(self string, seed int64, ids []int, cases []tcase, results []resu
 
 var vlimitKB = new(int64)
 
+// enumerateCuts: every cut position of the genuine raw response (positions past the end
+// of the frame come back tagged not-cut and are dropped by the check) for PLAIN step 2
+// (empty payload, and padded to 8 bytes), SCRAM-SHA-256 steps 2 and 3, both paths; ending
+// close at every position, silence + read deadline at every stride-th position and at the
+// positions around the prefix.
+func enumerateCuts(stride int) (cs []tcase) {
+	for _, path := range []string{"d", "t"} {
+		for _, ms := range []struct {
+			mech      string
+			step, pad int
+			kmax      int
+		}{{"plain", 2, 0, 4}, {"plain", 2, 8, 12}, {"s256", 2, 0, 140}, {"s256", 3, 0, 60}, {"s512", 3, 0, 100}} {
+			for k := 0; k < ms.kmax; k++ {
+				cs = append(cs, tcase{path: path, mech: ms.mech, hs: 0, au: saslfake.Absent, cred: "right", fstep: ms.step,
+					fkind: saslfake.FRawCut, rawN: k, rawEnd: "close", cutPad: ms.pad})
+				if k <= 5 || k%stride == 0 {
+					cs = append(cs, tcase{path: path, mech: ms.mech, hs: 0, au: saslfake.Absent, cred: "right", fstep: ms.step,
+						fkind: saslfake.FRawCut, rawN: k, rawEnd: "silent", cutPad: ms.pad})
+				}
+			}
+		}
+	}
+	return
+}
+
 func main() {
 	seed := flag.Int64("seed", 1, "PRNG seed")
 	isChild := flag.Bool("child", false, "internal: run cases from stdin")
 	one := flag.String("case", "", "run a single case (the arguments after 'run') in-process and print it")
 	workers := flag.Int("workers", 12, "parallel child processes")
+	subset := flag.String("subset", "all", "all | rawcut (only the cut positions of the raw SASL response)")
+	cutStride := flag.Int("cutstride", 6, "rawcut: silence ending at every n-th cut position")
 	flag.Int64Var(vlimitKB, "vlimit", 24000000, "address-space limit of the child processes, KB (ulimit -v)")
 	flag.Int("n", 0, "unused (the enumeration is exhaustive)")
 	flag.Parse()
@@ -689,11 +786,14 @@ func main() {
 	if *one != "" {
 		c := parseCase(*one)
 		o := runCase(c, creds, *seed)
-		fmt.Printf("1 %s %s | %s | %s | alloc=%d recv=%d\n# %s\n", c.op(), c.args(), o.res, strings.Join(o.feats, ","), o.alloc, o.recv, strings.Join(o.notes, "; "))
+		fmt.Printf("1 %s %s | %s | %s | alloc=%d recv=%d frame=%d cut=%v\n# %s\n", c.op(), c.args(), o.res, strings.Join(o.feats, ","), o.alloc, o.recv, o.frame, o.cut, strings.Join(o.notes, "; "))
 		return
 	}
 
 	mainCases, side := enumerate(creds)
+	if *subset == "rawcut" {
+		mainCases, side = nil, enumerateCuts(*cutStride)
+	}
 	cases := append(append([]tcase{}, mainCases...), side...)
 	results := make([]result, len(cases))
 	self, _ := os.Executable()
